@@ -262,7 +262,7 @@ theorem stepDt_le_hmax (E : RodasEnv ℚ) (hO : E.O = ratO) (hh : E.half = 1 / 2
     (hdt : s.dt ≤ E.hmaxV) : E.stepDt s ≤ E.hmaxV := by
   have hsub : ∀ a b : ℚ, E.O.sub a b = a - b := by intro a b; rw [hO]; rfl
   have hadd : ∀ a b : ℚ, E.O.add a b = a + b := by intro a b; rw [hO]; rfl
-  simp only [RodasEnv.stepDt, hf, Bool.false_eq_true, if_false]
+  simp only [RodasEnv.stepDt, RodasEnv.adaptDt, hf, Bool.false_eq_true, if_false]
   split
   · rename_i hs
     unfold RodasEnv.stretch at hs
